@@ -93,11 +93,11 @@ var suiteShapesQuick = []namedSuites{
 	{"pG", []dtls.CipherSuiteID{sPSKGCM}},
 	{"t1", []dtls.CipherSuiteID{s13A128}},
 	{"t1eG", []dtls.CipherSuiteID{s13A128, sECDSAGCM}}, // a list that spans both versions
+	{"epC", []dtls.CipherSuiteID{sEPSKCBC}},            // PSK authentication that still needs a common group
 }
 
 var suiteShapesExtra = []namedSuites{
 	{"t2rGpG", []dtls.CipherSuiteID{s13A256, sRSAGCM, sPSKGCM}},
-	{"epC", []dtls.CipherSuiteID{sEPSKCBC}},
 	{"rGeG", []dtls.CipherSuiteID{sRSAGCM, sECDSAGCM}}, // both key families, RSA preferred
 }
 
